@@ -16,7 +16,7 @@ EXPLANATION = (
     "configured time (fs->now) or is one of the listed non-persistent uses; a UUID / hash seed is generated only when none "
     "was given.  `mke2fs -n` writing nothing is decided under C13.d and backup placement wiring under C20.  Decides "
     "ordering and wiring for every configuration; does NOT decide geometry arithmetic (group sizes, table placement, "
-    "overhead, free counts) - seed C07-1, a wrong count passed to an accounting helper, is of that kind and is not caught.")
+    "overhead, free counts).")
 
 MK = "misc/mke2fs.c"
 
@@ -112,6 +112,18 @@ def run(world, rep, tier, only=None):
                "allocating calls reachable after `%s` without passing a mark of fs->block_map: %s" %
                (u.text()[:40], [(n.line, (T.call_names(n.ev["x"]) or ["?"])[0]) for n in late[:4]]))
     rep.floor("C07.e un-mark of fs->block_map in main", len(unm), 1)
+
+    # ------------------------------------------------------------------ C07.f per-piece accounting uses the piece
+    # a packed flex_bg inode table can straddle a group boundary: the allocator charges it group by group in a loop
+    # that splits the length into pieces; every accounting call in that loop must be given the piece
+    pw = piecewise_loops([f for f in prog.functions() if f.file in (
+        "lib/ext2fs/alloc_tables.c", "lib/ext2fs/alloc_stats.c", "lib/ext2fs/alloc_sb.c", "lib/ext2fs/initialize.c",
+        "misc/mke2fs.c", "misc/mk_hugefiles.c", "lib/ext2fs/mkjournal.c", "lib/ext2fs/res_gdt.c")])
+    rep.floor("C07.f piecewise loops in the allocation/accounting code", len(pw), 3)
+    for (f, tot, part, bad, ncalls) in pw:
+        rep.ob("C07.f", site(f, "loop over pieces `%s` of `%s` hands callees the piece" % (part, tot)), not bad,
+               "%d calls in the loop body; calls given the running total `%s`: %s" %
+               (ncalls, tot, [(c.line, (T.call_names(c.ev["x"]) or ["?"])[0]) for c in bad]))
 
     # ------------------------------------------------------------------ C07.b feature -> creator wiring
     CREATORS = [
